@@ -6,7 +6,8 @@ with it; the demonstration passes without the patch and fails with it; then runs
 extra ids) against the patched worktree. Stores everything under /verif/seeded/<ID>-<k>/ with meta.json."""
 import sys,os,re,subprocess,json,glob,shutil,tempfile
 ID,k=sys.argv[1],sys.argv[2]; extra=sys.argv[3:]
-src=f"/tmp/mut-{ID}-out/{k}"
+src=os.environ.get("SEED_SRC",f"/tmp/mut-{ID}-out")+f"/{k}"
+tag=os.environ.get("SEED_TAG","")
 env=dict(os.environ,GOFLAGS="-mod=mod",GOPROXY="off",GOSUMDB="off",GOTOOLCHAIN="local")
 def sh(cmd,cwd=None,timeout=3000):
     p=subprocess.run(cmd,shell=True,cwd=cwd,env=env,stdout=subprocess.PIPE,stderr=subprocess.STDOUT,text=True,timeout=timeout)
@@ -17,7 +18,7 @@ def pkgdir(demo):
     base=os.path.basename(demo)
     m=re.search(r"cp\s+\S*"+re.escape(base)+r"\s+(\S+)",readme)
     if m:
-        d=m.group(1).rstrip('/').replace('/tmp/mut-%s/'%ID,'')
+        d=m.group(1).rstrip('/').replace('/tmp/mut-%s/'%ID,'').replace('/tmp/mut2-%s/'%ID,'')
         return os.path.dirname(d) if d.endswith('.go') else d
     head=open(demo).read(2000)
     m=re.search(r"((?:crypto|network|windows|utils|logger)/[A-Za-z0-9_./-]+)",head) or re.search(r"((?:crypto|network|windows|utils|logger)/[A-Za-z0-9_./-]+)",readme)
@@ -72,7 +73,7 @@ try:
             meta["checks"][cid]={"rc":p.returncode,"violation_keys":keys[:8],"inconclusive":[l for l in p.stdout.splitlines() if l.startswith("INCONCLUSIVE")][:2]}
     m=re.search(r"(?s)(?:what it needs|needs|manifest)[^\n]*\n(.{0,600})",readme,re.I)
     meta["needs_to_manifest"]=(m.group(1).strip()[:600] if m else readme[:600])
-    dst=f"/verif/seeded/{ID}-{k}"; os.makedirs(dst,exist_ok=True)
+    dst=f"/verif/seeded/{ID}-{tag}{k}"; os.makedirs(dst,exist_ok=True)
     shutil.copy(src+"/patch.diff",dst)
     for d,_ in placed: shutil.copy(d,dst)
     if readme: shutil.copy(src+"/README.md",dst)
@@ -80,6 +81,6 @@ try:
     meta["confirmed_valid_seeded_change"]=valid
     meta["detected_by_quick"]=bool(meta.get("checks",{}).get(ID,{}).get("rc")==1)
     json.dump(meta,open(dst+"/meta.json","w"),indent=1)
-    print(f"INGEST {ID}-{k}: valid={valid} detected={meta['detected_by_quick']} apply={meta.get('apply')} build={meta.get('build')} suite={meta.get('suite_with_patch')} demo(no patch)={meta.get('demo_without_patch')} demo(patch)={meta.get('demo_with_patch')} checks={ {c:(v['rc'],v['violation_keys'][:3]) for c,v in meta.get('checks',{}).items()} }")
+    print(f"INGEST {ID}-{tag}{k}: valid={valid} detected={meta['detected_by_quick']} apply={meta.get('apply')} build={meta.get('build')} suite={meta.get('suite_with_patch')} demo(no patch)={meta.get('demo_without_patch')} demo(patch)={meta.get('demo_with_patch')} checks={ {c:(v['rc'],v['violation_keys'][:3]) for c,v in meta.get('checks',{}).items()} }")
 finally:
     subprocess.call(["git","-C","/repo","worktree","remove","--force",wt])
